@@ -118,6 +118,16 @@ def stepTyped (t : TRing Int) (isChar : Bool) (w : List String) : Option (TRing 
   | ["moveback", n] => do   -- move-construct another ring from x, then x.resize(n) and carry on with x
       let n ← n.toNat?
       pure (TRing.resize 0 t.move.2 n, "-")
+  | ["writebig", k, d] => do   -- write(buf, 2^32 + k); `d` = what the source buffer holds (size + 1 elements)
+      let k ← k.toNat?
+      let d ← parseBytes? d
+      if d.length < t.r.size.toNat + 1 then none
+      let (t', n) ← t.writeC (d.map fun b => b.toInt) (2 ^ 32 + k)
+      pure (t', toString n)
+  | ["readbig", k] => do       -- read(buf, 2^32 + k)
+      let k ← k.toNat?
+      let (r', out) ← TRing.readC ⟨t.r, t.buf.map charOfInt⟩ (2 ^ 32 + k)
+      pure ({ t with r := r' }, s!"{out.length} {bytesHex out}")
   | ["write", d] => do
       let d ← parseBytes? d
       let (r', buf', n) ← ringWrite t.r t.buf (d.map fun b => b.toInt)
